@@ -101,6 +101,7 @@ func TestC15(t *testing.T) {
 			concCase(t, r, i)
 		}
 		lookupRace(t, r)
+		failedCreationsBesideAnUpdater(t, r)
 		interfaceTyped(r)
 		for i := 0; i < r.N(12, 120); i++ {
 			lifetimes(r, i)
@@ -109,7 +110,7 @@ func TestC15(t *testing.T) {
 			updaterDuringPollOfStaleSecret(t, r, i)
 		}
 	}
-	r.Require("gets_after_install", "gets_without_install", "gets_after_many_installs", "builder_failures", "closes_checked", "updater_created_during_install",
+	r.Require("updaters_beside_failed_creations", "gets_after_install", "gets_without_install", "gets_after_many_installs", "builder_failures", "closes_checked", "updater_created_during_install",
 		"installs_with_failing_cache", "concurrent_gets", "updaters_from_racing_lookups", "interface_typed_updater_gets", "gets_while_failed_build_outstanding", "updater_lifetime_cases", "installs_going_back", "installs_of_equal_bytes", "updaters_created_during_a_poll_of_a_stale_secret")
 	r.Rule("sequential seeded histories over 2 secrets and up to 5 updaters: installs (0..4 between Gets, sometimes with a failing cache write), updater creation (also while an install lands during its initial build), scripted builder failures, Gets; exact expectations per Get on (builder invoked?, with which bytes, value returned, Err, Close counts). Concurrent runs: 8 Get goroutines vs an installer, judged by call/return stamps. Distinct = (event, installs since last Get capped at 3, builder outcome)")
 }
@@ -784,5 +785,91 @@ func updaterDuringPollOfStaleSecret(t *testing.T, r *evid.Run, idx int) {
 			r.Violation("stale-after-install", idx, fmt.Sprintf("case %d: an updater created (for a cached, long-unread, undeclared secret) while a poll was in flight: the service now has %q, a poll has completed, the updater returns %q (panic: %v)", idx, want, got, pan), nil)
 			return
 		}
+	}
+}
+
+// failedCreationsBesideAnUpdater: several NewUpdater calls on one secret overlap; some of them have builders
+// that (after a while) reject the value, one or two succeed. The failures are handled in every order. The
+// updaters that WERE handed out are like any other: after the next install their Get returns the new value.
+func failedCreationsBesideAnUpdater(t *testing.T, r *evid.Run) {
+	type plan struct {
+		failing  int   // creations whose builder fails
+		okAt     []int // positions (among the registrations) at which a succeeding creation is made
+		relOrder []int // order in which the failing builders are let go
+	}
+	plans := []plan{
+		{1, []int{1}, []int{0}}, {2, []int{2}, []int{0, 1}}, {2, []int{2}, []int{1, 0}}, {2, []int{1}, []int{0, 1}}, {2, []int{1, 2}, []int{0, 1}},
+		{3, []int{3}, []int{0, 1, 2}}, {3, []int{1}, []int{2, 0, 1}}, {3, []int{2, 3}, []int{1, 0, 2}}, {2, []int{0, 2}, []int{0, 1}}, {3, []int{0}, []int{0, 1, 2}},
+	}
+	for pi, pl := range plans {
+		svc := fakesvc.New()
+		svc.Set("u/s", 1, []byte("v1-bytes"))
+		st, err := setec.NewStore(context.Background(), setec.StoreConfig{Client: svc, Secrets: []string{"u/s"}, PollInterval: -1, Logf: func(string, ...any) {}})
+		if err != nil {
+			t.Fatal(err)
+		}
+		gates := make([]chan struct{}, pl.failing)
+		entered := make(chan int, pl.failing)
+		doneF := make([]chan error, pl.failing)
+		var good []*setec.Updater[string]
+		mkGood := func() {
+			u, err := setec.NewUpdater(context.Background(), st, "u/s", func(b []byte) (string, error) { return string(b), nil })
+			if err != nil {
+				r.Violation("updater-fails", -1, err.Error(), nil)
+				return
+			}
+			good = append(good, u)
+		}
+		isOK := func(pos int) bool {
+			for _, p := range pl.okAt {
+				if p == pos {
+					return true
+				}
+			}
+			return false
+		}
+		pos := 0
+		for f := 0; f < pl.failing; f++ {
+			for isOK(pos) {
+				mkGood()
+				pos++
+			}
+			gates[f] = make(chan struct{})
+			doneF[f] = make(chan error, 1)
+			go func(f int) {
+				_, err := setec.NewUpdater(context.Background(), st, "u/s", func(b []byte) (string, error) {
+					entered <- f
+					<-gates[f]
+					return "", errors.New("this component cannot parse the value")
+				})
+				doneF[f] <- err
+			}(f)
+			<-entered // registered, its builder is running
+			pos++
+		}
+		for isOK(pos) {
+			mkGood()
+			pos++
+		}
+		for _, f := range pl.relOrder {
+			close(gates[f])
+			if err := <-doneF[f]; err == nil {
+				r.Violation("builder-failure-not-reported", -1, "NewUpdater with a failing builder reported success", nil)
+			}
+		}
+		svc.Set("u/s", 2, []byte("v2-bytes"))
+		if err := st.Refresh(context.Background()); err != nil {
+			r.Violation("poll-fails", -1, err.Error(), nil)
+		}
+		r.Eval(1)
+		r.Distinct(fmt.Sprintf("updaters beside %d failed creations", pl.failing))
+		for gi, u := range good {
+			r.Count("updaters_beside_failed_creations", 1)
+			if got := u.Get(); got != "v2-bytes" {
+				r.Violation("update-lost", -1, fmt.Sprintf("plan %d (%d overlapping creations whose builders fail, released in order %v; succeeding creations at positions %v): after v2-bytes was installed, updater #%d - handed out, alive - returns %q", pi, pl.failing, pl.relOrder, pl.okAt, gi, got), nil)
+				break
+			}
+		}
+		st.Close()
 	}
 }
